@@ -117,6 +117,35 @@ func TestVerifC11(t *testing.T) {
 			emit(c, (&vgen{r: rng}).randBytes(rng.intn(28)))
 		}
 	}
+	// deep self-nesting (ParameterError inside ParameterError …): time must stay proportional to the input also on the
+	// failure path — a decoder that re-decodes a child on error takes 2^depth steps (watchdog: timeout)
+	if pe := s.params["ParameterError"]; pe != nil {
+		chain := func(depth int, innermost []byte) []byte {
+			b := innermost
+			for i := 0; i < depth; i++ {
+				body := append([]byte{0x01, 0x21, 0x00, 0x65}, b...) // ParameterType 289, ErrorCode 101, then the nested parameter
+				l := 4 + len(body)
+				b = append([]byte{0x01, 0x21, byte(l >> 8), byte(l)}, body...)
+			}
+			return b[4:] // the body of the outermost ParameterError
+		}
+		for _, depth := range []int{1, 2, 8, 24, 48, 64, 200} {
+			emit(pe, chain(depth, nil))                                                    // well-formed chain
+			emit(pe, chain(depth, []byte{0x01, 0x21, 0x00, 0x07, 0xaa, 0xbb, 0xcc}))       // innermost body one byte short
+			emit(pe, chain(depth, []byte{0x01, 0x20, 0x00, 0x08, 0x00, 0x01, 0x00, 0x65})) // a FieldError where only a ParameterError or FieldError may follow
+			emit(pe, chain(depth, []byte{0x01, 0x21, 0x00, 0x03}))                         // innermost declares less than its header
+		}
+		// the same chains inside an LLRPStatus inside a response message
+		if st := s.msgs["ErrorMessage"]; st != nil {
+			for _, depth := range []int{8, 64} {
+				inner := chain(depth, []byte{0x01, 0x21, 0x00, 0x07, 0xaa, 0xbb, 0xcc})
+				peTLV := append([]byte{0x01, 0x21, byte((4 + len(inner)) >> 8), byte(4 + len(inner))}, inner...)
+				body := append([]byte{0x00, 0x65, 0x00, 0x00}, peTLV...)
+				l := 4 + len(body)
+				emit(st, append([]byte{0x01, 0x1f, byte(l >> 8), byte(l)}, body...))
+			}
+		}
+	}
 	// allocation and time stay proportional to the input: a large valid report and large garbage
 	var ms0, ms1 runtime.MemStats
 	for _, name := range []string{"ROAccessReport", "GetReaderCapabilitiesResponse", "AddROSpec", "CustomMessage"} {
